@@ -490,7 +490,15 @@ func (u *Unit) frameObligations(b *Block, exits []*Exit, entry *State, pos token
 	}
 	if len(parts) > 0 {
 		u.g.Pre.add("(declare-fun fresh$ (Int) Bool)")
-		u.addMerged(id+"/frame", u.props, parts, "objects outside the modifies clause are unchanged (pre-existing objects): "+strings.Join(names, " "))
+		if hasFlag(b, "splitpaths") && len(parts) > 1 {
+			for k, p := range parts {
+				o := u.addMerged(fmt.Sprintf("%s/frame@%d", id, k), u.props, []string{p}, "objects outside the modifies clause are unchanged (pre-existing objects): "+strings.Join(names, " "))
+				o.dropAxioms = u.axiomsNotUsed(b, "frame")
+			}
+			return
+		}
+		o := u.addMerged(id+"/frame", u.props, parts, "objects outside the modifies clause are unchanged (pre-existing objects): "+strings.Join(names, " "))
+		o.dropAxioms = u.axiomsNotUsed(b, "frame")
 	}
 }
 
